@@ -668,6 +668,12 @@ class Evaluator:
                 for d, nme in rv.get("variants") or []:
                     if nme == "Break":
                         return const("int", d)
+            if v[0] == "tryopt" and v[1][0] in ("agg", "enumc") and v[1][1] == "std::option::Option" and v[1][2] in ("Some", "None"):
+                # `?` on an Option whose variant is known on this path (an inlined helper's `Some(..)` / `None`)
+                want = "Continue" if v[1][2] == "Some" else "Break"
+                for d, nme in rv.get("variants") or []:
+                    if nme == want:
+                        return const("int", d)
             if v[0] == "tryopt":
                 ren = {"Continue": "Some", "Break": "None"}
                 return ("discr", v[1], tuple((d, ren.get(n, n)) for d, n in (rv.get("variants") or [])))
